@@ -14,7 +14,7 @@ import io
 import json
 import zlib
 
-from .. import core, corpus, gen_enc
+from .. import core, corpus, gen_enc, literals
 from ..tok import enc as cps
 
 PRESCAN_DEFECTS = ["prescan-comment-needs-second-dashes", "prescan-meta-slash", "prescan-meta-prefix-not-a-tag",
@@ -73,7 +73,8 @@ def install_hooks():
         ct = a.get("content")
         ev = {"cs": cps(a.get("charset")), "he": cps(a.get("http-equiv")),
               "ct": [-1] if ct is None else list(ct.encode("utf-8", "surrogatepass")),
-              "be": stream.charEncoding[0].name, "bc": stream.charEncoding[1], "r": False}
+              "be": stream.charEncoding[0].name, "bc": stream.charEncoding[1], "r": False,
+              "hb": getattr(stream, "_bufferedCharacter", None) is not None}
         _REC["calls"] = []
         try:
             return orig_meta(self, token)
@@ -85,6 +86,7 @@ def install_hooks():
             _REC["calls"] = None
             ev["ae"] = stream.charEncoding[0].name
             ev["ac"] = stream.charEncoding[1]
+            ev["ha"] = getattr(stream, "_bufferedCharacter", None) is not None
             _REC["ev"].append(ev)
 
     dict.__setitem__(table, "meta", meta)
@@ -136,10 +138,14 @@ def std_bom(data):
     return None, 0
 
 
-def parse_tree(source, **kw):
+def parse_tree(source, ep=("parse", None), **kw):
+    """ep = ("parse", None) -> HTMLParser.parse;  ("fragment", container) -> HTMLParser.parseFragment"""
     from html5lib import HTMLParser
     p = HTMLParser(tree=_builder())
-    doc = p.parse(source, **kw)
+    if ep[0] == "fragment":
+        doc = p.parseFragment(source, container=ep[1] or "div", **kw)
+    else:
+        doc = p.parse(source, **kw)
     return p, doc
 
 
@@ -162,7 +168,7 @@ def source(data, mode):
     return data if mode == "bytes" else io.BytesIO(data) if mode == "bytesio" else Pipe(data)
 
 
-def observe(data, labels, mode="bytes", scripting=False):
+def observe(data, labels, mode="bytes", scripting=False, ep=("parse", None)):
     """run the real code on (bytes, *_encoding arguments); returns the trace record (k = "parse") or None when
     the parse of these bytes fails for reasons that are not C06's (same exception on the decoded text)"""
     import webencodings
@@ -170,7 +176,9 @@ def observe(data, labels, mode="bytes", scripting=False):
     install_hooks()
     kw = kw_of(labels)
     skw = {"scripting": True} if scripting else {}
+    skw["ep"] = ep = (ep[0], ep[1])
     tr = {"k": "parse", "data": list(data[:TRACE_DATA_MAX]), "src": mode, "raised": False, "scripting": scripting,
+          "ep": ep[0], "container": cps(ep[1]),
           "kw": {k: (cps(labels.get(k)) if k in labels else cps("windows-1252" if k == "d" else None)) for k, _ in KW}}
     try:
         s = HTMLBinaryInputStream(source(data, mode), useChardet=False, **kw)
@@ -236,14 +244,15 @@ def cfg_prescan(kind, maxlen, pads, listed, export=True, check=True):
             % (kind, maxlen, S(pads), "TRUE" if export else "FALSE", "TRUE" if check else "FALSE", S(listed)))
 
 
-def cfg_encoding(mode, labels, decl_labels, forms, boms, maxwin, maxdecl, listed, export, check):
+def cfg_encoding(mode, labels, decl_labels, forms, boms, maxwin, maxdecl, listed, export, check, edge=(False,)):
     return ("INIT Init\nNEXT Next\nCHECK_DEADLOCK FALSE\nINVARIANT ThmPrecedence\nINVARIANT ThmReported\n"
-            "INVARIANT ThmLateMeta\nINVARIANT ThmNoDeclLeft\nINVARIANT ThmRestartOnce\nINVARIANT ThmExport\nPROPERTY ThmCertainStable\n"
+            "INVARIANT ThmLateMeta\nINVARIANT ThmRestartFresh\nINVARIANT ThmNoDeclLeft\nINVARIANT ThmRestartOnce\nINVARIANT ThmExport\nPROPERTY ThmCertainStable\n"
             "CONSTANT Mode = \"%s\"\nCONSTANT Labels = %s\nCONSTANT DeclLabels = %s\nCONSTANT Forms = %s\n"
             "CONSTANT BomKinds = %s\nCONSTANT MaxWin = %d\nCONSTANT MaxDecl = %d\nCONSTANT Export = %s\n"
-            "CONSTANT CheckProperty = %s\nCONSTANT KnownDefects = %s\n"
+            "CONSTANT CheckProperty = %s\nCONSTANT KnownDefects = %s\nCONSTANT Edge = {%s}\n"
             % (mode, S(labels), S(decl_labels), S(forms), S(boms), maxwin, maxdecl,
-               "TRUE" if export else "FALSE", "TRUE" if check else "FALSE", S(listed)))
+               "TRUE" if export else "FALSE", "TRUE" if check else "FALSE", S(listed),
+               ",".join("TRUE" if e else "FALSE" for e in edge)))
 
 
 # ---------------------------------------------------------------------------------------------------------------
@@ -287,13 +296,23 @@ def concretize(rec, rng):
     head = "".join(decl_markup(rng, d) for d in decls[:nwin])
     tail = "".join(decl_markup(rng, d) for d in decls[nwin:])
     pad = ("<!--" + "x" * 1100 + "-->") if (tail or rng.random() < 0.05) else ""
-    text = head + pad + tail + "<p>téxt"
+    text = head + pad + tail + ("<p>text" if rec.get("edge") else "<p>téxt")
+    if rec.get("edge"):
+        # the first chunk of every pass ends in a CR: a chunk is CHUNK characters from where the decoder starts (ASCII
+        # only, so that this is the same byte in every encoding involved)
+        n = chunk_size() - len(text) - 1
+        text += "y" * n + rng.choice(["\r\nz", "\rz", "\r\n", "\r"]) + "<p>end"
     e0 = rec["e0"]
     if e0 in ("utf-16le", "utf-16be"):
         body = text.encode("utf-16-le" if e0 == "utf-16le" else "utf-16-be")
     else:
         body = text.encode("utf-8")
     return BOMS[rec["bom"]] + body, labels
+
+
+def chunk_size():
+    """the implementation's chunk size: the largest size threshold found in the source of the tree under test"""
+    return max(x for x in literals.ints("html5lib/_inputstream.py") if x <= 20000)
 
 
 def check_vector(item):
@@ -303,8 +322,9 @@ def check_vector(item):
     import random
     rng = random.Random(seed)
     data, labels = concretize(rec, rng)
-    tr = observe(data, labels)
-    case = {"kind": "vector", "rec": rec, "data": list(data), "labels": labels}
+    ep = item[3] if len(item) > 3 else ("parse", None)
+    tr = observe(data, labels, ep=ep)
+    case = {"kind": "vector", "rec": rec, "data": list(data), "labels": labels, "ep": list(ep)}
     if tr is None or "error" in tr:
         return ("parse raised %s" % (tr or {}).get("error"), case), None
     exp0 = (rec["e0"], rec["c0"], min(rec["from0"], len(data)))
@@ -313,8 +333,8 @@ def check_vector(item):
     if (tr["e"], tr["c"], tr["restarts"]) != (rec["e"], rec["c"], rec["restarts"]):
         return ("parse: documentEncoding/confidence/restarts %r, model %r"
                 % ((tr["e"], tr["c"], tr["restarts"]), (rec["e"], rec["c"], rec["restarts"])), case), tr
-    got = [(e["be"], e["bc"], e["ae"], e["ac"], e["r"]) for e in tr["ev"]]
-    exp = [(e["be"], e["bc"], e["e"], e["c"], e["r"]) for e in rec["log"]]
+    got = [(e["be"], e["bc"], e["ae"], e["ac"], e["r"], e["hb"], e["ha"]) for e in tr["ev"]]
+    exp = [(e["be"], e["bc"], e["e"], e["c"], e["r"], e["hb"], e["ha"]) for e in rec["log"]]
     if rec["e0"] in ("utf-16le", "utf-16be") and rec["restarts"]:
         n = 1 + [e["r"] for e in rec["log"]].index(True)      # pass 2 reads UTF-16 bytes in another encoding
         got, exp = got[:n], exp[:n]
@@ -579,6 +599,33 @@ FIXED = [
 ]
 
 
+CONTAINERS = ["div", "td", "head", "body", "table", "select", "title", "textarea", "script", "noscript", "svg", "html", "p"]
+
+
+def boundary_docs(ctx, quick):
+    """long inputs with something at every real size threshold of the input stream (lengths n-1, n, n+1 around every
+    integer threshold in the source of the tree under test, and their doubles): a CR (followed by LF / text / end of
+    input) or a multi-byte character as the last byte(s) of a prefix of that length, with and without a late meta
+    that confirms or changes the tentative encoding, through parse and parseFragment"""
+    base = [n for n in literals.sizes("html5lib/_inputstream.py") if n >= 2048]
+    lens = sorted(set(base + [2 * t + d for t in literals.ints("html5lib/_inputstream.py") if 4096 <= t <= 10240 for d in (-1, 0, 1)]))
+    late = b"<!--" + b"x" * 1100 + b"-->"
+    metas = [b"<meta charset=utf-8>", b""] if quick else [b"<meta charset=utf-8>", b"", b"<meta charset=windows-1252>", b"<meta charset=utf-16>"]
+    eps = [("parse", None), ("fragment", "div"), ("fragment", "td")]
+    out = []
+    for L in lens:
+        for m in metas:
+            head = b"<p>caf\xc3\xa9</p>" + late + m + b"<p>"
+            for tail in (b"\r\nz", b"\rz", b"\r", b"\xc3\xa9z"):
+                k = L - len(head) - (1 if tail[:1] == b"\r" else 1)      # CR, or the lead byte of the character, is byte L-1
+                if k < 0:
+                    continue
+                data = head + b"y" * k + tail + b"</p>"
+                for ep in eps:
+                    out.append((data, {} if len(out) % 3 else {"l": "koi8-r"}, "bytes", False, ep))
+    return out
+
+
 def rnd_content_bytes(rng):
     pieces = [b"charset", b"CHARSET", b"=", b" ", b"\t", b'"', b"'", b";", b"utf-8", b"x", b"text/html", b"\n", b"\xc3\xa9", b"koi8-r",
               b"charset=", b"harset", b"\x0c"]
@@ -599,7 +646,8 @@ def self_check(ctx):
 def _obs_item(item):
     data, labels = item[0], item[1]
     try:
-        return observe(data, labels, item[2] if len(item) > 2 else "bytes", bool(item[3]) if len(item) > 3 else False)
+        return observe(data, labels, item[2] if len(item) > 2 else "bytes", bool(item[3]) if len(item) > 3 else False,
+                       tuple(item[4]) if len(item) > 4 else ("parse", None))
     except Exception as e:      # noqa: an exception of the observed code on the stream level
         return {"error": "stream/observe raised " + repr(e), "data": list(data[:TRACE_DATA_MAX]), "labels": labels,
                 "src": item[2] if len(item) > 2 else "bytes"}
@@ -674,22 +722,33 @@ def run(ctx):
                                                     "faithful": w["faithful"], "intended": w["intended"]} for d, w in sorted(mc_witness.items())}
 
     # ---- 2. MC_Encoding: intended theorems; faithful export; parse-level replay -------------------------------
-    for mode, c in (("lazy", enc_lazy), ("product", enc_prod)):
+    # "edge": documents whose first chunk (real chunk size of the tree under test) ends in a held-back CR, replayed
+    # through parse AND parseFragment (restart x state of the character layer x entry point)
+    enc_edge = dict(labels=["none", "A"], decl_labels=["A", "B", "bogus"], forms=["charset", "pragma"], boms=["none", "utf-8"],
+                    maxwin=1, maxdecl=2)
+    ctx.constants["MC_Encoding edge"] = dict(enc_edge, Edge=[True], chunk=chunk_size(), entry_points=["parse", "fragment div", "fragment td"])
+    for tag, mode, c, edge, eps in (("lazy", "lazy", enc_lazy, (False,), [("parse", None)]),
+                                    ("product", "product", enc_prod, (False,), [("parse", None)]),
+                                    ("edge", "lazy", enc_edge, (True,), [("parse", None), ("fragment", "div"), ("fragment", "td")])):
         r = ctx.tlc("MC_Encoding", cfg_encoding(mode, c["labels"], c["decl_labels"], c["forms"], c["boms"], c["maxwin"], c["maxdecl"],
-                                                [], False, True), "mc-encoding-intended-" + mode, keep_records=False)
+                                                [], False, True, edge), "mc-encoding-intended-" + tag, keep_records=False)
         if r.violated:
-            ctx.violation("theorem %s fails on the intended encoding lifecycle (%s)" % (r.violated, mode), {"tlc": r.stdout_path})
+            ctx.violation("theorem %s fails on the intended encoding lifecycle (%s)" % (r.violated, tag), {"tlc": r.stdout_path})
             return
         r = ctx.tlc("MC_Encoding", cfg_encoding(mode, c["labels"], c["decl_labels"], c["forms"], c["boms"], c["maxwin"], c["maxdecl"],
-                                                listed, True, False), "mc-encoding-faithful-" + mode, keep_records=False)
+                                                listed, True, False, edge), "mc-encoding-faithful-" + tag, keep_records=False)
         if r.violated:
-            ctx.violation("structural theorem %s fails on the code-faithful encoding lifecycle (%s)" % (r.violated, mode), {"tlc": r.stdout_path})
+            ctx.violation("structural theorem %s fails on the code-faithful encoding lifecycle (%s)" % (r.violated, tag), {"tlc": r.stdout_path})
             return
         recs = [x for x in core.tlc.iter_records(r.stdout_path) if isinstance(x, dict) and "args" in x]
         keyed = sorted((json.dumps(x, sort_keys=True), x) for x in recs)
-        recs = [x for _, x in keyed]
-        step = max(1, len(recs) // (400 if q else 6000))
-        items = [(x, (ctx.seed << 32) ^ zlib.crc32(k.encode()), i % step == 0) for i, (k, x) in enumerate(keyed)]
+        keyed = [(k, x, ep) for k, x in keyed for ep in eps]
+        recs = [x for _, x, _ in keyed]
+        step = 1 if tag == "edge" else max(1, len(recs) // (400 if q else 6000))
+        if tag == "edge" and q:
+            keyed = keyed[::max(1, len(keyed) // 240)]      # long documents: a deterministic sample in the quick tier
+            recs = [x for _, x, _ in keyed]
+        items = [(x, (ctx.seed << 32) ^ zlib.crc32(k.encode()), i % step == 0, ep) for i, (k, x, ep) in enumerate(keyed)]
         del keyed
         results = core.parallel(check_vector, items, chunk=500)
         for i, (rec, (p, tr)) in enumerate(zip(recs, results)):
@@ -700,10 +759,10 @@ def run(ctx):
                 ctx.nontriv(("vector", json.dumps(rec, sort_keys=True)))
             if tr is not None and i % step == 0:
                 traces.append(tr)
-                origin.append(("mc-vector", concretize(rec, __import__("random").Random(items[i][1]))))
+                origin.append(("mc-vector", concretize(rec, __import__("random").Random(items[i][1])) + ("bytes", False, items[i][3])))
         if recs:
             m = recs[len(recs) // 3]
-            ctx.sample({"spec_to_code": "MC_Encoding/" + mode, "bom": m["bom"], "args": m["args"], "decls": m["decls"], "nwin": m["nwin"],
+            ctx.sample({"spec_to_code": "MC_Encoding/" + tag, "bom": m["bom"], "args": m["args"], "decls": m["decls"], "nwin": m["nwin"],
                         "expected": [m["e0"], m["c0"], m["e"], m["c"], m["restarts"]]})
     ctx.exhaustive = True
     # the two lifecycle findings must be demonstrable at model level
@@ -726,11 +785,13 @@ def run(ctx):
                     jobs.append((lead + late + pre.encode() + m + post.encode() + b"<title>\xc3\xa9</title>x", {}, "bytes", scripting))
     jobs.append((b"<head><!--" + b"x" * 1100 + b"--><noscript><meta charset=utf-8></noscript><title>\xc3\xa9", {}, "bytes", False))
     jobs.append((b"<head><!--" + b"x" * 1100 + b"--><noscript><meta charset=utf-8></noscript><title>\xc3\xa9", {"l": "koi8-r"}, "bytes", False))
+    jobs.extend(boundary_docs(ctx, q))
     for b in corpus_docs(ctx, 150 if q else 1500):
         jobs.append((b, rnd_labels(ctx.rng) if ctx.rng.random() < 0.6 else {}))
     for _ in range(1500 if q else 22000):
         jobs.append((rnd_doc(ctx.rng), rnd_labels(ctx.rng) if ctx.rng.random() < 0.55 else {},
-                     ctx.rng.choice(["bytes", "bytes", "bytes", "bytes", "bytesio", "pipe"]), ctx.rng.random() < 0.25))
+                     ctx.rng.choice(["bytes", "bytes", "bytes", "bytes", "bytesio", "pipe"]), ctx.rng.random() < 0.25,
+                     ("fragment", ctx.rng.choice(CONTAINERS)) if ctx.rng.random() < 0.25 else ("parse", None)))
     pending = [i for i, t in enumerate(traces) if t is None]
     pend_jobs = [origin[i][1] for i in pending]
     res = core.parallel(_obs_item, pend_jobs + jobs, chunk=300)
@@ -766,7 +827,8 @@ def run(ctx):
         o = gorigin[idx[id(tr)]]
         if o[1] is not None:        # the complete input (a trace carries only the first TRACE_DATA_MAX bytes)
             case = {"kind": "bytes", "data": list(o[1][0]), "labels": o[1][1], "src": o[1][2] if len(o[1]) > 2 else "bytes",
-                    "scripting": bool(o[1][3]) if len(o[1]) > 3 else False, "origin": o[0], "verdict": rec}
+                    "scripting": bool(o[1][3]) if len(o[1]) > 3 else False, "ep": list(o[1][4]) if len(o[1]) > 4 else ["parse", None],
+                    "origin": o[0], "verdict": rec}
         else:
             case = {"kind": "trace", "trace": tr, "origin": o[0], "verdict": rec}
         if rec["v"] == "finding":
@@ -794,11 +856,12 @@ def replay(case):
     kind = c.get("kind")
     if kind == "vector":
         print("replay: model expects", {k: c["rec"][k] for k in ("e0", "c0", "from0", "e", "c", "restarts")})
-        tr = _obs_item((bytes(c["data"]), c["labels"]))
+        tr = _obs_item((bytes(c["data"]), c["labels"], "bytes", False, tuple(c.get("ep") or ("parse", None))))
         if tr and "error" not in tr:
             print("replay: code gives   ", {k: tr[k] for k in ("e0", "c0", "skip0", "e", "c", "restarts")})
     elif kind == "bytes":
-        tr = _obs_item((bytes(c["data"]), c.get("labels") or {}, c.get("src", "bytes"), c.get("scripting", False)))
+        tr = _obs_item((bytes(c["data"]), c.get("labels") or {}, c.get("src", "bytes"), c.get("scripting", False),
+                        tuple(c.get("ep") or ("parse", None))))
     elif kind == "extract":
         tr = observe_extract(bytes(c["v"]))
     elif kind == "trace":
